@@ -458,7 +458,18 @@ type c08Cb struct {
 	fromRead bool // diagnostic only: the callback came while the parser was asking for bytes
 }
 
+// c08Sample: Parser.Incomplete() observed while the parser is blocked in a Read (every Read, not
+// only those that lead to a callback), plus the literal buffer probed through the hook.
+type c08Sample struct {
+	lines   int
+	aligned bool
+	inc     bool
+	litLen  int
+	open    int
+}
+
 type c08InterRes struct {
+	samples  []c08Sample
 	cbs      []c08Cb
 	panicked string
 	calls    int // Read calls on the feeder when the consumer stopped (or at the end)
@@ -469,6 +480,10 @@ type c08InterRes struct {
 func c08Interactive(p *syntax.Parser, src string, stopAt int) (r c08InterRes) {
 	fd := newC08Feeder(src, -1)
 	stopCalls := -1
+	fd.onRead = func(f *c08Feeder) {
+		pr := syntax.VerifC08ProbeParser(p)
+		r.samples = append(r.samples, c08Sample{lines: f.linesDone, aligned: f.aligned, inc: p.Incomplete(), litLen: pr.LitLen, open: pr.OpenNodes})
+	}
 	r.panicked = safely(func() {
 		for ss, err := range p.InteractiveSeq(fd) {
 			cb := c08Cb{stmts: append([]*syntax.Stmt(nil), ss...), inc: p.Incomplete(), err: err, lines: fd.linesDone, aligned: fd.aligned, calls: fd.calls}
@@ -861,6 +876,65 @@ func c08CheckInter(o c08PO, src string, pipe bool) (what string, stats map[strin
 	}
 	stats["callbacks"] += len(r.cbs)
 	return "", stats
+}
+
+// incl: Incomplete() after EVERY line, any input (parseable or not, reuse history or not): while
+// the parser is blocked at the end of line k, Incomplete() may be true only if a statement is
+// unfinished there (sentinel-line oracle on a fresh parser).  With a history, the parser was used
+// before through other entry points.
+func c08CheckIncompleteLines(p *syntax.Parser, o c08PO, src string) (what string, stats map[string]int) {
+	stats = map[string]int{}
+	r := c08Interactive(p, src, -1)
+	if r.panicked != "" {
+		return "", stats // C06's subject
+	}
+	lines := c08Lines(src)
+	seen := map[int]bool{}
+	for _, sm := range r.samples {
+		if !sm.aligned || sm.lines > len(lines) {
+			continue
+		}
+		stats["incl-samples"]++
+		fin, ok := seen[sm.lines]
+		if !ok {
+			fin = c08Finished(o, lines, sm.lines)
+			seen[sm.lines] = fin
+		}
+		if sm.inc {
+			stats["incl-incomplete"]++
+		}
+		if fin && sm.inc {
+			return fmt.Sprintf("blocked after line %d: Incomplete() is true (openNodes=%d, len(litBs)=%d) although no statement is unfinished there (the first %d lines followed by a separate command parse with that command as its own statement)", sm.lines, sm.open, sm.litLen, sm.lines), stats
+		}
+		if !fin && !sm.inc {
+			stats["incl-prompt-miss(not-incomplete-inside-statement)"]++
+		}
+	}
+	return "", stats
+}
+
+// c08LineSoup: programs built line by line from the things an interactive user types: comments
+// (also ending in a backslash), blank lines, lone backslashes, continuation lines, unfinished and
+// finished quotes / here-documents / compound commands.
+var c08SoupLines = []string{
+	"# c", "# ./configure --prefix=/usr \\", "#\\", "# a \\ b", "", "   ", "\t", "\\", " \\", "echo a", "echo a \\", "echo a # c \\", "a=1 # \\",
+	"echo 'a", "b'", "echo \"a", "b\"", "cat <<EOF", "body # \\", "EOF", "cat <<-'E'", "\tE", "if a; then", "fi", "foo() {", "}", "echo $(", ")",
+	"echo $(# c \\", "echo `a", "b`", "a &&", "b |", "c", "{ a; # x \\", "( # \\", "case x in # \\", "a) b ;; # \\", "esac", "[[ a ==", "b ]]", "echo a; # \\",
+}
+
+func (g *c08Gen) lineSoup() string {
+	r := g.r
+	var sb strings.Builder
+	for i, n := 0, 2+r.Intn(7); i < n; i++ {
+		sb.WriteString(r.Pick(c08SoupLines))
+		if i < n-1 || r.Chance(80) {
+			if r.Chance(5) {
+				sb.WriteString("\r")
+			}
+			sb.WriteString("\n")
+		}
+	}
+	return sb.String()
 }
 
 type c08Hist struct {
@@ -1504,6 +1578,30 @@ func c08(c *Ctx) {
 				}
 				tie(out, r, o, src, -1, false)
 			}
+		case "incl":
+			// incl <opts> hist=<history|-> <hex>
+			if len(fs) != 4 {
+				return
+			}
+			o, ok := c08ParsePO(fs[1])
+			hist, ok2 := c08ParseHist(kv["hist"])
+			if !ok || !ok2 {
+				return
+			}
+			src := unhx(fs[3])
+			p := o.fresh()
+			if len(hist) > 0 {
+				p, _ = c08UsedParser(o, hist)
+			}
+			what, st := c08CheckIncompleteLines(p, o, src)
+			for k, v := range st {
+				out.H(k, v)
+			}
+			out.Case("incl\x00"+line, true, "leg=incl", "corpus")
+			if what != "" {
+				out.Fail(line, what)
+			}
+			tie(out, r, o, src, -1, false)
 		case "interstop":
 			// interstop <opts> <k> <hex>: the consumer stops at its k-th callback
 			if len(fs) != 4 {
@@ -1601,6 +1699,15 @@ func c08(c *Ctx) {
 			if what != "" {
 				out.Fail("inter "+o.key()+" "+hx(src), what)
 			}
+			if what == "" {
+				w2, st2 := c08CheckIncompleteLines(o.fresh(), o, src)
+				for k, v := range st2 {
+					out.H(k, v)
+				}
+				if w2 != "" {
+					out.Fail("incl "+o.key()+" hist=- "+hx(src), w2)
+				}
+			}
 			tie(out, r, o, src, -1, true)
 			if r.Chance(30) {
 				// The consumer stops at a random callback: it must never be called again (a second
@@ -1610,18 +1717,36 @@ func c08(c *Ctx) {
 					tie(out, r, o, src, r.Intn(len(res.cbs)), false)
 				}
 			}
-		case x < 56: // tie on arbitrary (possibly erroring) input
+		case x < 60: // Incomplete() after every line + tie, on arbitrary (possibly erroring) input
 			o := g.po(false)
 			src := g.src(o.lang)
-			out.Case("glue\x00"+o.key()+"\x00"+src, false, "leg=glue-any-input")
-			tie(out, r, o, src, -1, false)
+			if r.Chance(60) {
+				src = g.lineSoup()
+			}
+			// half of the time on a parser that was used before (any entry point, other options)
+			var hist []c08Hist
+			p := o.fresh()
+			if r.Chance(50) {
+				hist = g.hist()
+				p, _ = c08UsedParser(o, hist)
+			}
+			w2, st2 := c08CheckIncompleteLines(p, o, src)
+			for k, v := range st2 {
+				out.H(k, v)
+			}
+			_, perr, _ := parseIn(src, o.lang, syntax.KeepComments(o.keep))
+			out.Case("incl\x00"+o.key()+"\x00"+src+"\x00"+c08HistKey(hist), perr == nil && strings.TrimSpace(src) != "", "leg=incl", fmt.Sprintf("keep=%v", o.keep), fmt.Sprintf("reused=%v", len(hist) > 0), fmt.Sprintf("lines<%d", bucket(strings.Count(src, "\n"))))
+			if w2 != "" {
+				out.Fail("incl "+o.key()+" hist="+c08HistKey(hist)+" "+hx(src), w2)
+			}
+			tie(out, r, o, src, -1, perr == nil)
 			if r.Chance(50) {
 				res := c08Interactive(o.fresh(), src, -1)
 				if len(res.cbs) > 0 {
 					tie(out, r, o, src, r.Intn(len(res.cbs)), false)
 				}
 			}
-		case x < 80: // preuse
+		case x < 82: // preuse
 			o := g.po(true)
 			entry := "parse"
 			if r.Chance(40) {
